@@ -86,6 +86,8 @@ type encWalker struct {
 	inProg map[*ssa.BasicBlock]bool
 	wrote  []ssa.Instruction // file writes (os.WriteFile)
 	ret    []ssa.Value
+	path   []*ssa.BasicBlock // blocks on the path being walked (for phis of an appended slice)
+	phiUse int               // number of phis resolved by the path so far
 }
 
 // recvFieldPath: v is a load of receiver member path.
@@ -368,7 +370,9 @@ func (w *encWalker) seqFrom(b, stop *ssa.BasicBlock) []seg {
 		failUndecided("%s: unexpected loop in encoder %s", w.c.rel(w.f.Pos()), shortFn(w.f))
 	}
 	w.inProg[b] = true
-	defer func() { w.inProg[b] = false }()
+	w.path = append(w.path, b)
+	phi0 := w.phiUse
+	defer func() { w.inProg[b] = false; w.path = w.path[:len(w.path)-1] }()
 	// loop head?
 	isHead := false
 	for _, p := range b.Preds {
@@ -408,12 +412,145 @@ func (w *encWalker) seqFrom(b, stop *ssa.BasicBlock) []seg {
 			rest = w.seqFrom(b.Succs[0], stop)
 		case *ssa.Return:
 			w.ret = append(w.ret, t.Results...)
+			// an encoder that assembles its octets by append and returns the slice
+			for _, res := range t.Results {
+				if sl, ok := res.Type().Underlying().(*types.Slice); ok && sizeOfBasic(sl.Elem()) == 1 {
+					if segs, ok := w.sliceSegs(res, t.Pos(), 0); ok {
+						rest = append(rest, segs...)
+					}
+				}
+			}
 		case *ssa.Panic:
 		}
 	}
 	out := append(append([]seg{}, own...), rest...)
-	if stop == nil {
+	if stop == nil && w.phiUse == phi0 {
 		w.memo[b] = out
+	}
+	return out
+}
+
+// sliceSegs describes a []byte value built by appending to an empty slice:
+// make([]byte, 0, n) / nil, append(s, b...), append(s, other...),
+// binary.<order>.AppendUintNN(s, v).  A Buffer.Bytes() result is not such a
+// value (its octets are the Write calls already collected): (nil, false).
+func (w *encWalker) sliceSegs(v ssa.Value, pos token.Pos, depth int) ([]seg, bool) {
+	if depth > 64 {
+		failUndecided("%s: the appended slice is built too deeply", w.c.rel(pos))
+	}
+	switch x := v.(type) {
+	case *ssa.MakeSlice:
+		if k, ok := constInt(x.Len); ok && k == 0 {
+			return nil, true
+		}
+		failUndecided("%s: the encoder appends to a slice that is not empty (make with a length)", posOf(w.c, x))
+	case *ssa.Const:
+		if x.Value == nil {
+			return nil, true
+		}
+	case *ssa.Slice:
+		// make([]byte, 0, constant) is new [n]byte sliced [:0]; s[:0] empties any slice
+		if x.High != nil && x.Low == nil {
+			if k, ok := constInt(x.High); ok && k == 0 {
+				return nil, true
+			}
+		}
+	case *ssa.Phi:
+		// the edge the walked path came in by
+		blk := x.Block()
+		for i := len(w.path) - 1; i > 0; i-- {
+			if w.path[i] == blk {
+				for k, p := range blk.Preds {
+					if p == w.path[i-1] {
+						w.phiUse++
+						return w.sliceSegs(x.Edges[k], pos, depth+1)
+					}
+				}
+			}
+		}
+		failUndecided("%s: cannot tell which appended slice reaches the return", w.c.rel(pos))
+	case *ssa.Call:
+		if b, ok := x.Call.Value.(*ssa.Builtin); ok && b.Name() == "append" && len(x.Call.Args) == 2 {
+			base, ok := w.sliceSegs(x.Call.Args[0], pos, depth+1)
+			if !ok {
+				return nil, false
+			}
+			if elems := variadicElemsOrdered(x.Call.Args[1]); elems != nil {
+				for _, e := range elems {
+					base = append(base, w.describeValue(e, "", x.Pos()))
+				}
+				return base, true
+			}
+			// append(s, other...): a nested appended slice, or a member
+			if inner, ok := w.sliceSegs(x.Call.Args[1], pos, depth+1); ok {
+				return append(base, inner...), true
+			}
+			return append(base, w.describeValue(x.Call.Args[1], "", x.Pos())), true
+		}
+		obj := calleeObj(&x.Call)
+		if obj == nil || obj.Pkg() == nil {
+			return nil, false
+		}
+		if obj.Pkg().Path() == "encoding/binary" && strings.HasPrefix(obj.Name(), "AppendUint") && len(x.Call.Args) == 3 {
+			base, ok := w.sliceSegs(x.Call.Args[1], pos, depth+1)
+			if !ok {
+				return nil, false
+			}
+			order := byteOrderOf(w.f, x.Call.Args[0])
+			if order == "?" {
+				if n := namedOf(x.Call.Args[0].Type()); n != nil {
+					switch n.Obj().Name() {
+					case "bigEndian":
+						order = "BigEndian"
+					case "littleEndian":
+						order = "LittleEndian"
+					}
+				}
+			}
+			return append(base, w.describeValue(x.Call.Args[2], order, x.Pos())), true
+		}
+		if sc := x.Call.StaticCallee(); sc != nil && sc.Name() == "Encoding" && w.c.inModule(sc) {
+			return []seg{w.describeValue(x, "", x.Pos())}, true
+		}
+	}
+	return nil, false
+}
+
+// variadicElemsOrdered: the elements of the implicit array of a variadic call,
+// by index; nil when v is not such a slice.
+func variadicElemsOrdered(v ssa.Value) []ssa.Value {
+	sl, ok := v.(*ssa.Slice)
+	if !ok || sl.Low != nil || sl.High != nil {
+		return nil
+	}
+	alloc, ok := sl.X.(*ssa.Alloc)
+	if !ok {
+		return nil
+	}
+	arr, ok := alloc.Type().Underlying().(*types.Pointer).Elem().Underlying().(*types.Array)
+	if !ok {
+		return nil
+	}
+	out := make([]ssa.Value, arr.Len())
+	for _, ref := range *alloc.Referrers() {
+		ia, ok := ref.(*ssa.IndexAddr)
+		if !ok {
+			continue
+		}
+		k, ok := constInt(ia.Index)
+		if !ok || k < 0 || k >= arr.Len() {
+			return nil
+		}
+		for _, r2 := range *ia.Referrers() {
+			if st, ok := r2.(*ssa.Store); ok && st.Addr == ia {
+				out[k] = st.Val
+			}
+		}
+	}
+	for _, e := range out {
+		if e == nil {
+			return nil
+		}
 	}
 	return out
 }
